@@ -327,4 +327,60 @@ Section RVP.
     apply (c11_sim_run_match _ _ _ _ _ _ _ _ _ Rvw (c11_rv_obs_match T) rv_step_sim rv_observe_sim).
     simpl. split; [| split]; auto using Rv_empty.
   Qed.
+  (* ------------------------------------------------------------ the capacity boundary *)
+  Lemma full_push_ub s l v : Rv s l -> length l = n -> c11_rv_push_back T s v = C11_ub.
+  Proof.
+    intros (Hl & Hs & Hn & He) Hfull. unfold c11_rv_push_back, c11_rv_store. rewrite Hl, Hs, Hfull, Nat.ltb_irrefl. reflexivity.
+  Qed.
+
+  Theorem c11_reserved_capacity_lemma : forall ops ws,
+    c11_spec_exec (c11_rvs_step T n) ([], [], None) ops = Some ws ->
+    exists w, c11_exec (c11_rv_step T d n) (c11_rv_empty T d n, c11_rv_empty T d n, None) ops = C11_ok w /\
+      forall (i : bool), let s := (if i then snd (fst w) else fst (fst w)) in let l := (if i then snd (fst ws) else fst (fst ws)) in
+        rv_size s = length l /\ rv_size s <= n /\ length (rv_arr s) = n /\
+        (forall v, length l < n -> exists s', c11_rv_push_back T s v = C11_ok s' /\ rv_size s' = S (rv_size s)) /\
+        (* push_back on an exactly full vector leaves the storage: the precondition size() < n is necessary *)
+        (forall v, length l = n -> c11_rv_push_back T s v = C11_ub).
+  Proof.
+    intros ops ws Hs.
+    destruct (c11_sim_exec _ _ _ _ _ Rvw rv_step_sim ops (c11_rv_empty T d n, c11_rv_empty T d n, None) ([], [], None) ws) as (w & Hw & HR); auto.
+    { simpl. split; [| split]; auto using Rv_empty. }
+    exists w. split; auto. destruct w as [[a b] r], ws as [[la lb] sr]. destruct HR as (Ha & Hb & _). cbn [fst snd].
+    assert (G : forall s l, Rv s l -> rv_size s = length l /\ rv_size s <= n /\ length (rv_arr s) = n /\
+              (forall v, length l < n -> exists s', c11_rv_push_back T s v = C11_ok s' /\ rv_size s' = S (rv_size s)) /\
+              (forall v, length l = n -> c11_rv_push_back T s v = C11_ub)).
+    { intros s l HR. pose proof HR as (Hl & Hsz & Hn & He). split; auto. split. lia. split; auto. split.
+      - intros v Hlt. destruct (push_ok s l v HR Hlt) as (s' & Hp & (_ & Hs' & _)). exists s'. split; auto.
+        rewrite Hs', app_length. simpl. lia.
+      - intros v Hf. eapply full_push_ub; eauto. }
+    intros [|]; apply G; auto.
+  Qed.
+  (* ------------------------------------------------------------ derived comparison operators *)
+  Lemma rv_observe_sim2 : forall w ws, Rvw w ws ->
+    exists x, c11_rv_observe2 T teq tlt w = C11_ok x /\ c11_rv_obs_match2 T x (c11_rvs_observe2 T teq tlt ws).
+  Proof.
+    intros [[a b] r] [[la lb] sr] HR. destruct (rv_observe_sim _ _ HR) as (x & Hx & Mx). destruct HR as (Ha & Hb & Hr).
+    unfold c11_rv_observe2, c11_rvs_observe2. rewrite Hx. cbn [c11_bind].
+    destruct (eq_total a la b lb Ha Hb) as [e He]. destruct (lt_total a la b lb Ha Hb) as [l1 Hl1]. destruct (lt_total b lb a la Hb Ha) as [l2 Hl2].
+    unfold c11_rv_ne, c11_rv_le, c11_rv_ge, c11_rv_gt. rewrite He, Hl1, Hl2. cbn [c11_bind].
+    eexists; split; [reflexivity |]. split; [exact Mx |]. cbn [snd].
+    split; [| split; [| split]].
+    - intros y Hy. destruct (c11_rvs_eq T teq la lb) as [e' |] eqn:E; [| discriminate]. simpl in Hy. injection Hy as <-.
+      rewrite (eq_ok a la b lb e' Ha Hb E) in He. injection He as <-. reflexivity.
+    - intros y Hy. rewrite (lt_ok b lb a la y Hb Ha Hy) in Hl2. injection Hl2 as <-. reflexivity.
+    - intros y Hy. destruct (c11_rvs_lt T tlt lb la) as [g' |] eqn:E; [| discriminate]. simpl in Hy. injection Hy as <-.
+      rewrite (lt_ok b lb a la g' Hb Ha E) in Hl2. injection Hl2 as <-. reflexivity.
+    - intros y Hy. destruct (c11_rvs_lt T tlt la lb) as [g' |] eqn:E; [| discriminate]. simpl in Hy. injection Hy as <-.
+      rewrite (lt_ok a la b lb g' Ha Hb E) in Hl1. injection Hl1 as <-. reflexivity.
+  Qed.
+
+  Theorem c11_reserved_comparisons_lemma : forall ops tr,
+    c11_rvs_run2 T teq tlt n ([], [], None) ops = map Some tr ->
+    exists mtr, c11_rv_run2 T d teq tlt n (c11_rv_empty T d n, c11_rv_empty T d n, None) ops = map C11_ok mtr /\
+                Forall2 (c11_rv_obs_match2 T) mtr tr.
+  Proof.
+    intros ops tr. unfold c11_rvs_run2, c11_rv_run2.
+    apply (c11_sim_run_match _ _ _ _ _ _ _ _ _ Rvw (c11_rv_obs_match2 T) rv_step_sim rv_observe_sim2).
+    simpl. split; [| split]; auto using Rv_empty.
+  Qed.
 End RVP.
